@@ -245,6 +245,11 @@ func getPrevSnapshot(testID, snapPath string) (string, int, error) {
 }
 
 func addNewSnapshot(testID, snapshot, snapPath string) error {
+	// an append must not interleave with updateSnapshot, which reads the whole file and
+	// then rewrites it: an entry appended in between would be lost
+	_m.Lock()
+	defer _m.Unlock()
+
 	if err := os.MkdirAll(filepath.Dir(snapPath), os.ModePerm); err != nil {
 		return err
 	}
